@@ -39,7 +39,7 @@ ASSUMPTIONS = [
     "signature/puzzle frames written by the transport at start-up are not commands (the write ledger is filtered by frame)",
     "'delivered to the application' = a handler registered with Gateway.add_msg_handler()",
 ]
-REQUIRED = {"configs": 10, "rx.expected_pass": 50, "rx.expected_drop": 50, "tx.expected_pass": 10, "tx.expected_refuse": 10, "devices.checked": 20, "startups.with_foreign_signature": 3, "scenario.live": 5, "scenario.restore": 3, "scenario.reconnect": 2, "restore.lines_held": 20}
+REQUIRED = {"configs": 10, "rx.expected_pass": 50, "rx.expected_drop": 50, "tx.expected_pass": 10, "tx.expected_refuse": 10, "devices.checked": 20, "startups.with_foreign_signature": 3, "startups.mute_stick": 2, "scenario.live": 5, "scenario.restore": 3, "scenario.reconnect": 2, "restore.lines_held": 20}
 
 ALL, NON, HGI = "63:262142", "--:------", "18:000730"
 
@@ -98,6 +98,9 @@ def gen_config(rng, stack: str) -> dict[str, Any]:
         # on the port was swapped for one with another id (the earlier id is then just a foreign 18: device)
         "scenario": rng.choice(("live", "live", "restore", "reconnect")) if stack == "port" else rng.choice(("live", "live", "restore")),
         "old_active": "18:133333",
+        # a stick that never echoes the start-up signature: the gateway is never identified, there is no 'active
+        # gateway' id, and the placeholder 18:000730 seen in a received packet is just another unlisted id
+        "mute_stick": stack == "port" and rng.random() < 0.25,
     }
 
 
@@ -172,7 +175,23 @@ async def run_config(loop: vloop.VirtualLoop, ctx, cfg: dict[str, Any]) -> None:
             ok_packets.append((frame, src, dst))
         except (exc.PacketInvalid, ValueError):
             ctx.count("rx.undecodable_skipped")
-    air = airmod.Air(loop)
+    if cfg.get("mute_stick"):
+        cfg["scenario"], cfg["active"] = "live", None
+        extra = []
+        for k, (a, b) in enumerate(((HGI, HGI), (HGI, cfg["listed"][0] if cfg["listed"] else ALL), ((cfg["listed"] or cfg["unlisted"])[0], HGI))):
+            if a == b:
+                extra.append((f" I --- {a} --:------ {a} 1F09 003 FF07E{k}", a, a))
+            else:
+                extra.append((f"RP --- {a} {b} --:------ 0016 002 00E{k}", a, b))
+        ok_packets = ok_packets + extra
+        ctx.count("startups.mute_stick")
+
+        def mute(kind: str, frame: str, target: str) -> list[float]:
+            return [] if kind == "echo" and " 7FFF " in frame else airmod.no_faults(kind, frame, target)
+
+        air = airmod.Air(loop, mute)
+    else:
+        air = airmod.Air(loop)
     gwy = None
     try:
         with clocks_patched():
@@ -240,7 +259,7 @@ async def run_config(loop: vloop.VirtualLoop, ctx, cfg: dict[str, Any]) -> None:
 
             ctx.ev()
             ctx.count("configs")
-            cfg_w = {k: cfg[k] for k in ("stack", "enforce", "known", "block", "active", "gw_mode", "scenario")}
+            cfg_w = {k: cfg[k] for k in ("stack", "enforce", "known", "block", "active", "gw_mode", "scenario", "mute_stick")}
             delivered = set(got)
             restore_enforces = len([k for k, v in cfg["known_list"].items() if v.get("class") == "HGI"]) == 1
             for frame, src, dst in ok_packets:
@@ -273,16 +292,15 @@ async def run_config(loop: vloop.VirtualLoop, ctx, cfg: dict[str, Any]) -> None:
             for dev_id in list(gwy.device_by_id):
                 ctx.count("devices.checked")
                 bad = dev_id in cfg["block"] or (enforce and dev_id not in cfg["known"] and dev_id != cfg["active"])
-                if bad and scenario == "restore" and not restore_enforces and dev_id not in cfg["block"]:
-                    ctx.count("restore.devices_for_unlisted_ids(recorded finding)")
-                elif bad:
+                if bad:  # (also in a restore that lets packets of non-listed ids through: the gateway's own
+                    # second check of the lists refuses to build a device for them)
                     ctx.violate(
                         f"C10|device-created|{classify(dev_id, cfg)}",
                         "a device was created for a block-listed (or, under enforcement, non-allowed) id",
                         {"config": cfg_w, "device": dev_id, "named_in_000c": cfg.get("named_in_000c")},
                     )
             # sending (port stack only)
-            if cfg["stack"] == "port":
+            if cfg["stack"] == "port" and not cfg.get("mute_stick"):
                 dsts = list({*cfg["listed"][:2], *cfg["unlisted"][:1], *cfg["blocked"][:2], cfg["foreign"]}) + ([cfg["old_active"]] * 2 if scenario == "reconnect" else [])
                 srcs = [HGI, HGI, "18:006402"] + cfg["listed"][:1] + cfg["blocked"][:1] + cfg["unlisted"][:1]
                 for k in range(8 if ctx.quick else 14):
